@@ -206,6 +206,10 @@ def run(scn, st):
                     return
                 orig = lines[op["i"] % len(lines)]
                 connected = op["connected"]
+                if id(orig) in dirty and not connected:
+                    # (a stand-alone copy of a line that an earlier client edit may have made invalid would be
+                    # built from the text of an invalid line: out of the claim, use the line itself)
+                    connected = True
                 if not connected:
                     # a stand-alone line with the same text
                     oo = core.call(gfapy.Line, ob.line_text(orig), vlevel=cfg["vlevel"],
